@@ -18,6 +18,7 @@ PROPS = {
     "C20": {
         "modules": ["Cose.Props.C20"],
         "families": [],
+        "model_queries": [["iana.diff", "ok none"]],
         "n_quick": 0, "n_thorough": 0,
         "trusted_base": ["Cose.Spec.IanaSnapshot: hand-transcribed IANA registries (COSE, CWT, CBOR tags)"],
         "assumptions": ["the registry snapshot is correct"],
@@ -137,7 +138,7 @@ PROPS = {
         "assumptions": ["known finding D9 (uninterpretable key_ops lift the restriction) is listed in known_findings.txt and proved as malformed_ops_unusable_cex"],
     },
     "C17": {
-        "modules": ["Cose.Props.C17"], "families": ["key", "impl", "sig"], "spec_ops": [],
+        "modules": ["Cose.Props.C17"], "families": ["key", "impl", "sig", "dec", "map"], "spec_ops": ["dec.keyjson"],
         "n_quick": 1000, "n_thorough": 100000,
         "rule": "symmetric / Ed25519 / ECDSA keys with optional and broken members (kty, alg in every Go kind or absent or foreign, kid, key_ops, Base IV, extra labels, wrong sizes), nil key; "
                 "key.info (kty/alg/ops/kid/baseIV), key.factory for the four kinds (registered / not registered / invalid), behaviour of the obtained implementation",
